@@ -306,6 +306,34 @@ func trieHistory(o *h.Out, rc *h.Rng, ans func(string), secure bool) {
 			o.Violate("c18-root-depends-on-history", fmt.Sprintf("root %x after the history, %x when rebuilt from the final content (%d keys, round %d)", final[:6], fr[:6], len(ks), round))
 		}
 	}
+	// T3: a copy is independent.  Deleting (and so collapsing branches) on a copy that shares the uncommitted nodes
+	// must leave the original's lookups and root as they are.
+	if len(ks) > 0 {
+		var cp trieLike
+		switch x := cur.(type) {
+		case *trie.SecureTrie:
+			cp = x.Copy()
+		case *trie.Trie:
+			c := *x
+			cp = &c
+		}
+		if cp != nil {
+			for i, nd := 0, 1+rc.Intn(3); i < nd; i++ {
+				cp.TryUpdate([]byte(ks[rc.Intn(len(ks))]), nil) // an empty value deletes
+			}
+			cp.Hash()
+			for _, k := range ks {
+				if v, _ := cur.TryGet([]byte(k)); !bytes.Equal(v, content[k]) {
+					o.Violate("c18-copy-not-independent", fmt.Sprintf("after deleting keys on a copy, the original returns %x for key %x (content %x)", v, k, content[k]))
+					break
+				}
+			}
+			if again := cur.Hash(); again != final {
+				o.Violate("c18-copy-not-independent", fmt.Sprintf("after deleting keys on a copy, the original's root went from %x to %x", final[:6], again[:6]))
+			}
+			o.Count("copy-delete-probe")
+		}
+	}
 	// T3: the root is the canonical one - a second hasher (the streaming StackTrie, fed in key order) over the same
 	// content gives the same root.  StackTrie cannot hold a key that is a prefix of another, such contents are skipped.
 	eff := map[string][]byte{}
